@@ -26,6 +26,10 @@ type (
 		// Result returns the result, possibly blocking.
 		Result() Result
 
+		// ResultFor returns the result, possibly blocking, and reports to the
+		// truncation marker of ctx if the result was influenced by a limit.
+		ResultFor(ctx context.Context) Result
+
 		// CheckFunc returns a CheckFunc that writes the result to the result
 		// channel.
 		CheckFunc() CheckFunc
